@@ -89,7 +89,7 @@ def bounds(tier):
     q = tier == "quick"
     return {
         "fasta_dna_max_len": 5 if q else 6,
-        "fasta_headers": 49,
+        "fasta_headers": 51,
         "fasta_chars_per_line": CPLS,
         "fastq_complete_score_tuples": "length <= 2 for all 7 offsets x 3 widths; length 3 for offset 64 at width 1; lengths 4-5 over the 4 boundary scores" if q
         else "length <= 3 for offsets 33 and 64 and all widths, length <= 2 for all 7 offsets",
@@ -170,7 +170,8 @@ def fasta_headers(seed):
     L = LETTERS[seed % 5]
     hs = list(strings_upto([L, " ", ">", ";", "|", "\t"], 2))
     hs += ["sp|P12345|NAME_HUMAN Some protein OS=Homo sapiens OX=9606", L * 200, L + "  b   c",
-           "gi|123|ref|NC_000001.1| Homo sapiens chromosome 1, complete", ">>>;;;|||", L + "\n" + L]
+           "gi|123|ref|NC_000001.1| Homo sapiens chromosome 1, complete", ">>>;;;|||", L + "\n" + L, "\n" + L,
+           L + "\n"]
     return hs
 
 
@@ -203,7 +204,7 @@ def gen_fasta(tier, seed):
         for s, k in seqs:
             yield {"kind": "fasta", "h": L + "1", "s": s, "t": k, "cpl": cpl}
     # ordered multi-entry files
-    pal = [(L, "ACGT"), ("b", ""), (L + "b", "ACGTACG"), (L + " b", "A"), (">" + L, "L*K"), ("|;", "NNN")]
+    pal = [(L, "ACGT"), ("b", ""), (L + "b", "ACGTACG"), (L + " b", "A"), (">" + L, "L*K"), ("|;", "NNN"), ("e2", "")]
     for cpl in CPLS:
         for k in (2, 3):
             for ents in itertools.permutations(pal, k):
@@ -464,6 +465,15 @@ def gen_fastq_misc(tier, seed):
                 for e2 in ent:
                     yield {"kind": "fastq_multi", "o": o, "w": w,
                            "ents": [[L, "ACGT"[:len(e1)], e1], ["b", "TGCA"[:len(e2)], e2]]}
+            # empty reads at every position of 2- and 3-entry files
+            for e in ent[:4] + ent[4::3]:
+                for ents in ([[L, "", []], ["b", "TGCA"[:len(e)], e]], [[L, "ACGT"[:len(e)], e], ["b", "", []]],
+                             [[L, "", []], ["b", "", []]],
+                             [[L, "", []], ["b", "TGCA"[:len(e)], e], ["c", "", []]],
+                             [[L, "ACGT"[:len(e)], e], ["b", "", []], ["@c", "TGCA"[:len(e)], e]],
+                             [[L, "", []], ["b", "", []], ["c", "ACGT"[:len(e)], e]],
+                             [[L, "", []], ["b", "", []], ["c", "", []]]):
+                    yield {"kind": "fastq_multi", "o": o, "w": w, "ents": ents}
             for e1 in ent[:4] + ent[4::5]:
                 for e2 in ent[:4]:
                     for e3 in ent[1:3] + ent[5:7]:
@@ -563,7 +573,7 @@ def check_fastq(case, ctx, fast=False):
     if back != parsed or not fastq_layout_ok(wio.getvalue(), nid, seq, chars, w):
         ctx.violation("%s|write_iter_differs|%s" % (site, cls), "entry written by write_iter is not recovered / not wrapped",
                       case, parsed, [back, wio.getvalue()[:300]])
-    if fast or hc != "plain" or empty:
+    if fast or hc != "plain":
         return
     # typed level
     try:
@@ -627,8 +637,10 @@ def check_fastq_multi(case, ctx):
 # ===========================================================================
 DEFAULT_SEQ = "ACGTACGTACGT"
 QUAL_VALUES = ["x", "a b", "a/b", "a=b", "/x=", "a  b", " a", "a ", "l1\nl2", "", None, "x" * 80, 'a"b',
-               "l1\n\nl3", "/pseudo", "1..5"]
-QUAL_VALUES_SMALL = ["x", None, "a=b", "/x=", "l1\nl2"]
+               "l1\n\nl3", "/pseudo", "1..5",
+               # a repeated key is read back piece by piece: every position of an EMPTY piece (first / inner / last / only)
+               "\nx", "\n", "\n\nx", "a\n", "\n\n", "a\n\n", "\na\n", 'q"\n\n"']
+QUAL_VALUES_SMALL = ["x", None, "a=b", "/x=", "l1\nl2", "\nx", "a\n"]
 QUAL_KEYS = ["gene", "note", "pseudo"]
 
 
@@ -638,9 +650,13 @@ def value_class(v):
     if v == "":
         return "empty"
     if '"' in v:
-        return "double_quote_in_value"
+        return "double_quote_in_value" + ("_multi_line" if "\n" in v else "")
     if "\n" in v:
-        return "multi_line" + ("_with_empty_line" if "\n\n" in v else "")
+        pieces = v.split("\n")
+        if all(x == "" for x in pieces):
+            return "multi_line_only_empty_lines"
+        return "multi_line" + ("_first_empty" if pieces[0] == "" else "") \
+            + ("_inner_empty" if "" in pieces[1:-1] else "") + ("_last_empty" if pieces[-1] == "" else "")
     if v != v.strip():
         return "outer_space"
     if v.startswith("/"):
@@ -876,6 +892,18 @@ def gb_classify(b, case):
         sub = gb_classify(b, {**case, "feats": [{**ft, "qual": []}]})
         if sub is not None:
             return sub
+        if len(ft["qual"]) > 1 and got is not None:
+            # attribute to a single qualifier only if the set gives exactly the union of what its members give alone
+            parts = [gb_eval(b, [{**ft, "qual": [kv]}], seqstr, start, fmt) for kv in ft["qual"]]
+            failing = [kv for kv, (fl, _) in zip(ft["qual"], parts) if fl is not None]
+            if failing and all(g is not None and len(g) == 1 for _, g in parts):
+                fs = [next(iter(g)) for _, g in parts]
+                merged = {}
+                for x in fs:
+                    merged.update(dict(x[2]))
+                composed = frozenset([(fs[0][0], fs[0][1], tuple(sorted(merged.items(), key=lambda kv: kv[0])))])
+                if got == composed:
+                    return gb_classify(b, {**case, "feats": [{**ft, "qual": [failing[0]]}]})
         m = annot_mode(exp, obs)[0] if mode == "annotation" else mode
         return ("genbank|qual|%s|%s" % (m, qual_class(ft["qual"])), "qualifiers are not recovered", exp, obs, case)
     if ft["key"] != "gene":
@@ -963,7 +991,7 @@ def gen_gb_qual(tier, seed):
         for k in QUAL_KEYS:
             for v in QUAL_VALUES:
                 yield gbcase([feat(locs, [(k, v)])])
-        pairvals = [v for v in QUAL_VALUES if v is None or '"' not in v]
+        pairvals = QUAL_VALUES
         for k1, k2 in itertools.permutations(QUAL_KEYS, 2):
             for v1 in pairvals:
                 for v2 in pairvals:
@@ -990,6 +1018,8 @@ def gb_feature_palette(P):
         feat([[a, m, 1, BETW]], [("note", "l1\nl2")], key="misc_feature"),
         feat([[a, z, 1, UNK]], key="variation"),
         feat([[m, z, -1, BEY_L | BEY_R]], [("gene", "x"), ("note", "a=b")], key="5'UTR"),
+        feat([[a, m, 1, 0]], [("note", "\nx")], key="misc_feature"),
+        feat([[m, z, 1, 0]], [("note", "a\n"), ("pseudo", None)], key="CDS"),
     ]
 
 
@@ -1032,6 +1062,60 @@ def gen_gb_seq(tier, seed):
         for sym in prot:
             yield gbcase(annots[0], seq="M" + sym + "K", start=start, fmt="gp")
             yield gbcase(annots[0], seq=sym, start=start, fmt="gp")
+
+
+def gen_gb_field(tier, seed):
+    """GenBankFile field level: content / sub-field lines are split into a name column and a content column and put
+    together again line by line - every sequence of 1..3 lines over {empty, word, indented word} as field content and
+    as sub-field content (empty first / inner / last / only line)."""
+    pieces = ["", "x", " y"]
+    line_sets = [list(t) for n in (1, 2, 3) for t in itertools.product(pieces, repeat=n)]
+    for c in line_sets:
+        yield {"kind": "gb_field", "content": c, "sub": []}
+        for sl in line_sets:
+            yield {"kind": "gb_field", "content": c, "sub": [["S", sl]]}
+    for s1 in line_sets:
+        for s2 in line_sets:
+            yield {"kind": "gb_field", "content": ["x"], "sub": [["S", s1], ["T", s2]]}
+
+
+def check_gb_field(case, ctx):
+    b = B()
+    content, sub = case["content"], case["sub"]
+    ctx.ev(1, 1 if ("" in content or any("" in sl for _, sl in sub)) else 0)
+    ctx.count("accepted")
+    exp = [["LOCUS", ["l"], []], ["A", list(content), [[k, list(v)] for k, v in sub]], ["B", ["z"], [["S", ["s"]]]]]
+
+    def views(f):
+        return [GenBankSpec._view(f[i]) for i in range(len(f))]
+
+    try:
+        f = b.gb.GenBankFile()
+        f.append("LOCUS", ["l"])
+        f.append("A", list(content), {k: list(v) for k, v in sub} if sub else None)
+        f.append("B", ["z"], {"S": ["s"]})
+        live = views(f)
+        text = text_of(f)
+        parsed = views(b.gb.GenBankFile.read(io.StringIO(text)))
+    except Exception as e:  # noqa: BLE001
+        ctx.violation("genbank|field|%s|%s" % (exc_name(e), gb_lines_class(content, sub)), "field round trip raised", case, exp,
+                      repr(e))
+        return
+    ctx.outcome(("gb_field", text))
+    for name, got in (("parsed", parsed), ("live", live)):
+        if got != exp:
+            ctx.violation("genbank|field|%s_differs|%s" % (name, gb_lines_class(content, sub)),
+                          "content / sub-field lines of a GenBank field are not recovered", case, exp, got)
+            return
+
+
+def gb_lines_class(content, sub):
+    def cls(lines):
+        if all(x == "" for x in lines):
+            return "only_empty_lines"
+        return ("first_empty" if lines[0] == "" else "") + ("+inner_empty" if "" in lines[1:-1] else "") \
+            + ("+last_empty" if lines[-1] == "" else "") or "no_empty_line"
+    return "content_%s|subfields_%s" % (cls(content).strip("+"), "+".join(sorted({cls(sl).strip("+") for _, sl in sub})) or "none")
 
 
 def gen_gb_locus(tier, seed):
@@ -1318,7 +1402,12 @@ def gen_gff(tier, seed):
             for v2 in ("v", "b ", ";", ""):
                 yield {"kind": "gff", "ents": [[[8, [[k, v], ["z", v2]]]]]}
                 yield {"kind": "gff", "ents": [[[8, [["z", v2], [k, v]]]]]}
-    for v in ("Parent=x", "a b c", "x\ny", "1,2", "%3B", "%25", "ID", L * 300, "b  ", "  ", " b"):
+    for attrs in ([["", "v"], ["z", "w"]], [["z", "w"], ["", "v"]], [["", ""], ["z", "w"]], [["z", "w"], ["", ""]],
+                  [["a", "1"], ["b", ""], ["c", "3"]], [["a", ""], ["b", "2"], ["c", ""]], [["a", ""], ["b", ""], ["c", ""]],
+                  [["a", "1"], ["", "2"], ["c", "3"]], [["", ""]]):
+        yield {"kind": "gff", "ents": [[[8, attrs]]]}
+    for v in ("Parent=x", "a b c", "x\ny", "1,2", "%3B", "%25", "ID", L * 300, "b  ", "  ", " b", "\nx", "x\n", "\n",
+              "x\n\ny", "\n\nx"):
         yield {"kind": "gff", "ents": [[[8, [["ID", "i1"], ["Note", v]]]]]}
         yield {"kind": "gff", "ents": [[[8, [["Note", v], ["ID", "i1"]]]]]}
     # pairs of column deviations
@@ -1340,7 +1429,8 @@ def gen_gff_annot(tier, seed):
     L = LETTERS[seed % 5]
     bases = gb_bases(P)
     atoms = [[f, la, s, d] for f, la in bases for s in (1, -1) for d in (0, BEY_L, UNK)]
-    quals = [[], [["note", "a b"]], [["note", L + ";" + L + "=%,"]], [["note", "l1\nl2"]], [["Name", "é"]], [["note", " b"]]]
+    quals = [[], [["note", "a b"]], [["note", L + ";" + L + "=%,"]], [["note", "l1\nl2"]], [["Name", "é"]], [["note", " b"]],
+             [["note", "\nb"]], [["note", "b\n"]], [["note", ""]]]
     for key in ("gene", "CDS"):
         for a in atoms:
             for q in quals:
@@ -1628,7 +1718,7 @@ class FastqSpec:
         at, pl, lo = 64 - ov, 43 - ov, 33 - ov
         big = cfg.get("big")
         keys = [L, "b", L + "b"] + (["@" + L] if big else [])
-        vals = [["AC", [at, pl]], ["ACG", [pl, at, at]], ["A", [at]], ["ACGTA", [lo, pl, at, pl, at]]]
+        vals = [["AC", [at, pl]], ["ACG", [pl, at, at]], ["A", [at]], ["ACGTA", [lo, pl, at, pl, at]], ["", []]]
         have = [k for k, _ in m]
         out = []
         for k in keys:
@@ -1636,13 +1726,13 @@ class FastqSpec:
                 if k in have or len(m) < (4 if big else 3):
                     out.append(["set", k, v])
             out.append(["del", k])
-        leaves = [["set", " " + L + "w", vals[0]], ["set", L + "q", ["", []]], ["del", "zz"]]
+        leaves = [["set", " " + L + "w", vals[0]], ["del", "zz"]]
         return out, leaves
 
     @staticmethod
     def model(m, op, cfg):
         if op[0] == "set":
-            if header_class(op[1]) != "plain" or op[2][0] == "":
+            if header_class(op[1]) != "plain":
                 return "unspec", None
             v = (op[2][0], list(op[2][1]))
             if op[1] in [k for k, _ in m]:
@@ -1708,6 +1798,11 @@ GB_VALUES = [
     ["ORIGIN", ["        1 acgt"], None],
     ["A", ["x2", ""], [["S", ["q"]]]],
 ]
+GB_EMPTY_LINE_VALUES = [
+    ["C", ["", "x"], [["S", ["", "s2"]], ["T", ["t", ""]]]],
+    ["D", ["a", "", "b"], [["S", ["s", "", "t"]]]],
+    ["E", [""], [["S", [""]]]],
+]
 GB_TEXT = """LOCUS       AB000001                  12 bp    DNA     linear   BCT 01-JAN-2000
 SOURCE      Some organism
   ORGANISM  Some organism
@@ -1737,12 +1832,14 @@ class GenBankSpec:
         if tier == "quick":
             out = [{"fmt": "genbank", "init": "empty", "vals": vals[:4], "mx": 4},
                    {"fmt": "genbank", "init": "text", "vals": [vals[0], vals[1]], "mx": 4},
-                   {"fmt": "genbank", "init": "empty", "vals": [vals[4], vals[0], vals[2]], "mx": 3}]
+                   {"fmt": "genbank", "init": "empty", "vals": [vals[4], vals[0], vals[2]], "mx": 3},
+                   {"fmt": "genbank", "init": "empty", "vals": GB_EMPTY_LINE_VALUES, "mx": 3}]
         else:
             out = [{"fmt": "genbank", "init": "empty", "vals": vals, "mx": 4},
                    {"fmt": "genbank", "init": "empty", "vals": [vals[4], vals[0], vals[2]], "mx": 5},
                    {"fmt": "genbank", "init": "empty", "vals": [vals[1], vals[3], vals[0]], "mx": 5},
-                   {"fmt": "genbank", "init": "text", "vals": vals[:3], "mx": 5}]
+                   {"fmt": "genbank", "init": "text", "vals": vals[:3], "mx": 5},
+                   {"fmt": "genbank", "init": "empty", "vals": GB_EMPTY_LINE_VALUES + [vals[1]], "mx": 4}]
         return out
 
     @staticmethod
@@ -2290,12 +2387,13 @@ FAMILIES = {
     "gb_feat2": (gen_gb_feat2, 1, 1),
     "gb_seq": (gen_gb_seq, 2, 4),
     "gb_locus": (gen_gb_locus, 1, 1),
+    "gb_field": (gen_gb_field, 2, 2),
     "gff": (gen_gff, 2, 2),
     "gff_annot": (gen_gff_annot, 2, 2),
     "general": (gen_general, 1, 1),
 }
 CHECKERS = {"fasta": check_fasta, "fasta_multi": check_fasta_multi, "fastq": check_fastq, "fastq_multi": check_fastq_multi,
-            "gb": check_gb, "gb_locus": check_gb_locus, "gff": check_gff, "gff_annot": check_gff_annot,
+            "gb": check_gb, "gb_locus": check_gb_locus, "gb_field": check_gb_field, "gff": check_gff, "gff_annot": check_gff_annot,
             "general": check_general}
 
 
